@@ -20,6 +20,18 @@ structure RouteHdr where
   nhops : Nat := 0
   totalFees : Nat := 0
   recv : Nat := 0
+  payload : Nat := 0
+  payloadMax : Nat := 0
+  hopsMax : Nat := 0
+
+/-- what the search itself used when it relaxed one edge of the returned chain. -/
+structure Stored where
+  idx : Nat
+  cnt : Nat
+  amt : Nat
+  schan : Option Nat
+  samt : Option Nat
+  scltv : Option Nat
 
 structure St where
   caseId : String := "0"
@@ -28,12 +40,16 @@ structure St where
   via : String := ""
   req : Req := default
   graph : Graph := []
+  hintIds : List Nat := []
   find : String := ""
   edges : List UEdge := []
   routeOk : Bool := false
   rh : RouteHdr := {}
   hops : List Hop := []
   hopFees : List Nat := []
+  stored : List Stored := []
+  probOk : Bool := true
+  relaxDup : Bool := false
   badParse : Bool := false
   -- counters
   lines : Nat := 0
@@ -61,6 +77,17 @@ structure St where
   dbCases : Nat := 0
   sessCases : Nat := 0
   directComplete : Nat := 0
+  routeCases : Nat := 0
+  hintRoutes : Nat := 0
+  metaCases : Nat := 0
+  storedChecked : Nat := 0
+  storedCltvChecked : Nat := 0
+  distinctProb : Nat := 0
+  payloadTight : Nat := 0
+  noEdges : Nat := 0
+  usesHint : Bool := false
+  metaLen : Nat := 0
+  probMode : Int := 0
   samples : Nat := 0
 
 def mismatch (s : St) (detail : String) : IO St := do
@@ -93,24 +120,22 @@ def parsePol (v : String) : Option (Option Policy) :=
     | _, _, _, _, _, _, _, _, _ => none
   | _ => none
 
-/-- Everything the route computation touches stays far away from the integer
-    limits (the no-overflow hypothesis of the theorems); otherwise the exact
-    monitor is not applied to the case. -/
-def fitsRoute (g : Graph) (rt : Route) : Bool :=
-  let big : Nat := 2 ^ 60
-  rt.totalAmt < big && rt.totalTL < 2 ^ 31 &&
-  rt.hops.all (fun h => decide (h.amt < big) && decide (h.tl < 2 ^ 31)) &&
-  g.all (fun c =>
-    let ok (p : Option Policy) : Bool := match p with
-      | none => true
-      | some p => decide (rt.totalAmt * p.rate < 2 ^ 63) && decide (p.base < big) &&
-          decide ((clampRate p.inRate).natAbs * (2 * rt.totalAmt + p.base + 1) < 2 ^ 61)
-    ok c.p1 && ok c.p2 && decide (c.cap * 1000 < 2 ^ 63))
+/-- The fee the forwarding node demands when evaluated with Go's wrapping
+    arithmetic (`ComputeFee` in uint64, `CalcFee` in int64) on the graph's policy. -/
+def requiredFeeGo (p : Policy) (inb : Int × Int) (fwdAmt : Nat) : Nat :=
+  let outFee := computeFee p.base p.rate fwdAmt
+  let inFee := calcInFee inb.1 inb.2 (u64 (fwdAmt + outFee))
+  let fee := i64 (i64 outFee + inFee)
+  if fee < 0 then 0 else fee.toNat
 
-/-- name of the first violated clause of `routeOK` (diagnostics only). -/
-def firstViolation (g : Graph) (r : Req) (rt : Route) : String := Id.run do
-  if rt.source != r.source then return "source"
-  if rt.hops.isEmpty then return "empty"
+/-- All violated clauses of `routeOK` as `(clause, detail)` (diagnostics; the
+    decision itself is `routeOK`).  A fee clause is tagged `+overflow` only when,
+    at that very hop, Go's wrapping fee arithmetic on that hop's own policy
+    differs from the exact fee and the route does pay the wrapped fee. -/
+def violations (g : Graph) (r : Req) (rt : Route) : List (String × String) := Id.run do
+  let mut out : List (String × String) := []
+  if rt.source != r.source then out := out ++ [("source", "")]
+  if rt.hops.isEmpty then return out ++ [("empty", "")]
   let n := rt.hops.length
   let mut cur := r.source
   let mut amtIn := rt.totalAmt
@@ -120,46 +145,50 @@ def firstViolation (g : Graph) (r : Req) (rt : Route) : String := Id.run do
   for h in rt.hops do
     let last := i + 1 == n
     match g.dirPol h.chan cur h.to with
-    | none => return s!"connected hop={i}"
+    | none => return out ++ [("connected", s!"hop={i}")]
     | some (p, cap) =>
       let loc := cur == r.self
-      if !loc && p.disabled then return s!"enabled hop={i}"
-      if amtIn < p.minHtlc then return s!"min_htlc hop={i}"
-      if p.hasMax && amtIn > p.maxHtlc then return s!"max_htlc hop={i}"
-      if cap != 0 && amtIn > cap * 1000 then return s!"capacity hop={i}"
+      if !loc && p.disabled then out := out ++ [("enabled", s!"hop={i}")]
+      if amtIn < p.minHtlc then out := out ++ [("min_htlc", s!"hop={i}")]
+      if p.hasMax && amtIn > p.maxHtlc then out := out ++ [("max_htlc", s!"hop={i}")]
+      if cap != 0 && amtIn > cap * 1000 then out := out ++ [("capacity", s!"hop={i}")]
       if loc then
         match r.bwOf h.chan with
-        | some b => if amtIn > b then return s!"bandwidth hop={i}"
+        | some b => if amtIn > b then out := out ++ [("bandwidth", s!"hop={i}")]
         | none => pure ()
-        if !r.outChans.isEmpty && !r.outChans.contains h.chan then return s!"outgoing_chan hop={i}"
+        if !r.outChans.isEmpty && !r.outChans.contains h.chan then
+          out := out ++ [("outgoing_chan", s!"hop={i}")]
       if last then
         match r.lastHop with
-        | some l => if cur != l then return "last_hop"
+        | some l => if cur != l then out := out ++ [("last_hop", "")]
         | none => pure ()
-      if r.ignNodes.contains cur then return s!"ignored_node hop={i}"
-      if r.ignPairs.contains (cur, h.to) then return s!"ignored_pair hop={i}"
+      if r.ignNodes.contains cur then out := out ++ [("ignored_node", s!"hop={i}")]
+      if r.ignPairs.contains (cur, h.to) then out := out ++ [("ignored_pair", s!"hop={i}")]
       match prevHop with
       | some (prev, hIn, aIn, tIn) =>
-        let need := requiredFee p (g.inboundOf hIn.chan prev hIn.to) hIn.amt
+        let inb := g.inboundOf hIn.chan prev hIn.to
+        let need := requiredFee p inb hIn.amt
         if hIn.amt + need > aIn then
-          return s!"fee hop={i} node={cur} in={aIn} fwd={hIn.amt} need={need}"
+          let needGo := requiredFeeGo p inb hIn.amt
+          let tag := if needGo != need && hIn.amt + needGo ≤ aIn then "fee+overflow" else "fee"
+          out := out ++ [(tag, s!"hop={i} node={cur} in={aIn} fwd={hIn.amt} need={need} need_wrapped={needGo} base={p.base} rate={p.rate} inbound={inb.1},{inb.2}")]
         if hIn.tl + p.delta > tIn then
-          return s!"timelock hop={i} node={cur} in={tIn} out={hIn.tl} delta={p.delta}"
+          out := out ++ [("timelock", s!"hop={i} node={cur} in={tIn} out={hIn.tl} delta={p.delta}")]
       | none => pure ()
       if last then
-        if h.to != r.target then return "target"
-        if h.amt != amtIn || amtIn != r.amt then return "final_amount"
-        if h.tl != tlIn || tlIn != r.height + r.finalDelta then return "final_timelock"
+        if h.to != r.target then out := out ++ [("target", "")]
+        if h.amt != amtIn || amtIn != r.amt then out := out ++ [("final_amount", "")]
+        if h.tl != tlIn || tlIn != r.height + r.finalDelta then out := out ++ [("final_timelock", "")]
     prevHop := some (cur, h, amtIn, tlIn)
     cur := h.to
     amtIn := h.amt
     tlIn := h.tl
     i := i + 1
-  if rt.totalAmt > r.amt + r.feeLimit then return "fee_limit"
-  if rt.totalTL > r.height + r.finalDelta + r.cltvLimit then return "cltv_limit"
-  if rt.totalAmt != r.amt + rt.hopFees.sum then return "sum_fees"
-  if rt.totalTL != r.height + r.finalDelta + rt.hopGaps.sum then return "sum_timelocks"
-  return "unknown"
+  if rt.totalAmt > r.amt + r.feeLimit then out := out ++ [("fee_limit", "")]
+  if rt.totalTL > r.height + r.finalDelta + r.cltvLimit then out := out ++ [("cltv_limit", "")]
+  if rt.totalAmt != r.amt + rt.hopFees.sum then out := out ++ [("sum_fees", "")]
+  if rt.totalTL != r.height + r.finalDelta + rt.hopGaps.sum then out := out ++ [("sum_timelocks", "")]
+  return out
 
 def showHops (hs : List Hop) : String :=
   " ".intercalate (hs.map fun h => s!"[{h.chan}>{h.to} {h.amt}@{h.tl}]")
@@ -209,33 +238,41 @@ def endCase (s : St) : IO St := do
   if s.rh.src < 0 then
     s ← mismatch s "route source is not a graph node"
   let n := s.hops.length
-  if n != s.rh.nhops || n != s.edges.length then
-    s ← mismatch s s!"hop/edge count: hops={n} nhops={s.rh.nhops} edges={s.edges.length}"
   s := match n with
     | 1 => { s with hops1 := s.hops1 + 1 }
     | 2 => { s with hops2 := s.hops2 + 1 }
     | 3 => { s with hops3 := s.hops3 + 1 }
     | _ => { s with hops4p := s.hops4p + 1 }
   if r.source == r.target then s := { s with selfPay := s.selfPay + 1 }
-  -- (X) newRoute model on the real path
-  match newRoute r.source s.edges r.height r.amt r.finalDelta with
-  | none => s ← mismatch s "model newRoute: no hops"
-  | some m =>
-    if m != rt then
-      s ← mismatch s s!"newRoute: model total={m.totalAmt}@{m.totalTL} {showHops m.hops} impl total={rt.totalAmt}@{rt.totalTL} {showHops rt.hops}"
-    if rt.hopFeesGo != s.hopFees then
-      s ← mismatch s s!"HopFee: model={rt.hopFeesGo} impl={s.hopFees}"
-    if rt.totalFeesGo != s.rh.totalFees then
-      s ← mismatch s s!"TotalFees: model={rt.totalFeesGo} impl={s.rh.totalFees}"
-    if rt.receiverAmt != s.rh.recv then
-      s ← mismatch s s!"ReceiverAmt: model={rt.receiverAmt} impl={s.rh.recv}"
-  -- (X) the search's admissibility decisions along the real path
-  match replaySearch g r exact s.edges with
-  | none =>
-    s ← mismatch s "search replay: the returned path is not what getEdge/processEdge admit"
-  | some x =>
-    if x.recv != rt.totalAmt then
-      s ← mismatch s s!"search replay: amount at source model={x.recv} impl={rt.totalAmt}"
+  if s.via == "route" then s := { s with routeCases := s.routeCases + 1 }
+  if s.metaLen > 0 then s := { s with metaCases := s.metaCases + 1 }
+  if s.probMode < 0 then s := { s with distinctProb := s.distinctProb + 1 }
+  let haveEdges := !(s.via == "route" && s.edges.isEmpty)
+  if !haveEdges then s := { s with noEdges := s.noEdges + 1 }
+  if n != s.rh.nhops || (haveEdges && n != s.edges.length) then
+    s ← mismatch s s!"hop/edge count: hops={n} nhops={s.rh.nhops} edges={s.edges.length}"
+  if haveEdges then
+    -- (X) newRoute model on the real path
+    match newRoute r.source s.edges r.height r.amt r.finalDelta with
+    | none => s ← mismatch s "model newRoute: no hops"
+    | some m =>
+      if m != rt then
+        s ← mismatch s s!"newRoute: model total={m.totalAmt}@{m.totalTL} {showHops m.hops} impl total={rt.totalAmt}@{rt.totalTL} {showHops rt.hops}"
+    -- (X) the search's admissibility decisions along the real path
+    match replaySearch g r exact s.edges with
+    | none =>
+      s ← mismatch s "search replay: the returned path is not what getEdge/processEdge admit"
+    | some x =>
+      if x.recv != rt.totalAmt then
+        s ← mismatch s s!"search replay: amount at source model={x.recv} impl={rt.totalAmt}"
+  if rt.hopFeesGo != s.hopFees then
+    s ← mismatch s s!"HopFee: model={rt.hopFeesGo} impl={s.hopFees}"
+  if rt.totalFeesGo != s.rh.totalFees then
+    s ← mismatch s s!"TotalFees: model={rt.totalFeesGo} impl={s.rh.totalFees}"
+  if rt.receiverAmt != s.rh.recv then
+    s ← mismatch s s!"ReceiverAmt: model={rt.receiverAmt} impl={s.rh.recv}"
+  if s.relaxDup then
+    s ← mismatch s "finality: a node pair was relaxed twice in one search (head node expanded twice)"
   -- distribution
   let usedNeg := s.edges.any (fun e => e.inBase < 0 || e.inRate < 0)
   if usedNeg then s := { s with negInbound := s.negInbound + 1 }
@@ -255,13 +292,43 @@ def endCase (s : St) : IO St := do
   if rt.totalAmt == r.amt + r.feeLimit then s := { s with feeTight := s.feeTight + 1 }
   if rt.totalTL == r.height + r.finalDelta + r.cltvLimit then
     s := { s with cltvTight := s.cltvTight + 1 }
-  -- (S) the property monitor
-  if !fitsRoute g rt then
-    return { s with wrapSkipped := s.wrapSkipped + 1 }
+  -- (S) the property monitor: always, in exact arithmetic
   s := { s with monitored := s.monitored + 1 }
   if !routeOK g r rt then
-    s ← monitor s (firstViolation g r rt |>.splitOn " " |>.headD "unknown")
-      s!"{firstViolation g r rt} route total={rt.totalAmt}@{rt.totalTL} {showHops rt.hops}"
+    let vs := violations g r rt
+    let vs := if vs.isEmpty then [("unknown", "")] else vs
+    for (cl, det) in vs do
+      if cl == "fee+overflow" then s := { s with wrapSkipped := s.wrapSkipped + 1 }
+      s ← monitor s cl s!"{det} route total={rt.totalAmt}@{rt.totalTL} {showHops rt.hops}"
+  -- (S) finality: the entries the search used when it relaxed the edges of the returned
+  -- chain are the ones recomputed along the chain
+  if !s.probOk then
+    s ← monitor s "stale-entry" s!"probability stored for the source is not the product along the returned chain; route total={rt.totalAmt}@{rt.totalTL} {showHops rt.hops}"
+  let amtIns := rt.totalAmt :: (rt.hops.map (·.amt))
+  let tlIns := rt.totalTL :: (rt.hops.map (·.tl))
+  for st in s.stored do
+    let aIn := amtIns.getD st.idx 0
+    let tIn := tlIns.getD st.idx 0
+    let hc := (rt.hops.getD st.idx default).chan
+    s := { s with storedChecked := s.storedChecked + 1 }
+    if st.cnt == 0 || st.amt != aIn then
+      s ← monitor s "stale-entry" s!"hop={st.idx} the search relaxed this edge with amount {st.amt} (relaxations={st.cnt}), the route carries {aIn}; route total={rt.totalAmt}@{rt.totalTL} {showHops rt.hops}"
+    match st.schan, st.samt, st.scltv with
+    | some c, some a, some t =>
+      s := { s with storedCltvChecked := s.storedCltvChecked + 1 }
+      if c != hc || a != aIn || t != tIn then
+        s ← monitor s "stale-entry" s!"hop={st.idx} entry stored by the search: chan={c} amt={a} cltv={t}; returned chain: chan={hc} amt={aIn} cltv={tIn}; route total={rt.totalAmt}@{rt.totalTL} {showHops rt.hops}"
+    | _, _, _ => pure ()
+  if s.stored.length != n then
+    s ← mismatch s s!"stored lines: {s.stored.length} for {n} hops"
+  -- (S) onion payload (real size function) within the sphinx limits
+  if s.rh.payloadMax > 0 then
+    if s.rh.payload > s.rh.payloadMax || n > s.rh.hopsMax then
+      s ← monitor s "payload_size" s!"payload={s.rh.payload} max={s.rh.payloadMax} hops={n} max_hops={s.rh.hopsMax}"
+    if s.rh.payload + 40 > s.rh.payloadMax then s := { s with payloadTight := s.payloadTight + 1 }
+  else
+    s ← mismatch s "route line without payload size"
+  if s.usesHint then s := { s with hintRoutes := s.hintRoutes + 1 }
   if s.samples < 4 && n ≥ 2 then
     IO.println s!"SAMPLE {s.hdr} => total={rt.totalAmt}@{rt.totalTL} {showHops rt.hops}"
     s := { s with samples := s.samples + 1 }
@@ -296,14 +363,18 @@ def step (s : St) (line : String) : IO St := do
       bw := [] }
     let bad := (kvNat? rest "amt").isNone || (kvNat? rest "src").isNone || (kvNat? rest "tgt").isNone
     return { s with caseId := id, hdr := line, kind := (kv? rest "kind").getD "",
-                    via := (kv? rest "via").getD "", req := req, graph := [], find := "",
+                    via := (kv? rest "via").getD "", req := req, graph := [], hintIds := [],
+                    find := "",
                     edges := [], routeOk := false, rh := {}, hops := [], hopFees := [],
+                    stored := [], probOk := true, relaxDup := false, usesHint := false,
+                    metaLen := nat "meta", probMode := (kvInt? rest "prob").getD 0,
                     badParse := bad, cases := s.cases + 1 }
   | "chan" :: id :: a :: b :: rest =>
     match nat? id, nat? a, nat? b, kvNat? rest "cap",
           (kv? rest "p1").bind parsePol, (kv? rest "p2").bind parsePol with
     | some id, some a, some b, some cap, some p1, some p2 =>
-      return { s with graph := s.graph ++ [⟨id, a, b, cap, p1, p2⟩] }
+      let hs := if kvNat? rest "hint" == some 1 then id :: s.hintIds else s.hintIds
+      return { s with graph := s.graph ++ [⟨id, a, b, cap, p1, p2⟩], hintIds := hs }
     | _, _, _, _, _, _ => return { s with badParse := true }
   | ["bw", id, v] =>
     match nat? id, nat? v with
@@ -313,10 +384,14 @@ def step (s : St) (line : String) : IO St := do
       return { s with req := rq' }
     | _, _ => return { s with badParse := true }
   | "find" :: _ =>
-    let s := { s with find := resOf ws }
-    if kvNat? ws "probok" == some 0 then
-      mismatch s "finality: the probability stored for the source differs from the product along the returned chain"
-    else return s
+    return { s with find := resOf ws, probOk := kvNat? ws "probok" != some 0,
+                    relaxDup := kvNat? ws "relaxdup" == some 1 }
+  | "stored" :: i :: rest =>
+    match nat? i, kvNat? rest "cnt", kvNat? rest "amt" with
+    | some i, some cnt, some amt =>
+      return { s with stored := s.stored ++
+        [⟨i, cnt, amt, kvNat? rest "schan", kvNat? rest "samt", kvNat? rest "scltv"⟩] }
+    | _, _, _ => return { s with badParse := true }
   | "edge" :: _ :: rest =>
     match kvNat? rest "chan", kvNat? rest "from", kvNat? rest "to", kvNat? rest "base",
           kvNat? rest "rate", kvNat? rest "delta", kvInt? rest "ibase", kvInt? rest "irate",
@@ -328,13 +403,16 @@ def step (s : St) (line : String) : IO St := do
     if resOf ws == "ok" then
       let h : RouteHdr := ⟨(kvNat? ws "total_amt").getD 0, (kvNat? ws "total_tl").getD 0,
         (kvInt? ws "src").getD (-1), (kvNat? ws "nhops").getD 0,
-        (kvNat? ws "total_fees").getD 0, (kvNat? ws "recv").getD 0⟩
+        (kvNat? ws "total_fees").getD 0, (kvNat? ws "recv").getD 0,
+        (kvNat? ws "payload").getD 0, (kvNat? ws "payload_max").getD 0,
+        (kvNat? ws "hops_max").getD 0⟩
       return { s with routeOk := true, rh := h }
     else return { s with routeOk := false }
   | "hop" :: _ :: rest =>
     match kvNat? rest "chan", kvNat? rest "to", kvNat? rest "amt", kvNat? rest "tl", kvNat? rest "fee" with
     | some c, some t, some a, some tl, some fee =>
-      return { s with hops := s.hops ++ [⟨c, t, a, tl⟩], hopFees := s.hopFees ++ [fee] }
+      return { s with hops := s.hops ++ [⟨c, t, a, tl⟩], hopFees := s.hopFees ++ [fee],
+                      usesHint := s.usesHint || s.hintIds.contains c }
     | _, _, _, _, _ => return { s with badParse := true }
   | ["END"] => endCase s
   | [] => return s
@@ -351,7 +429,7 @@ def main : IO Unit := do
   IO.println s!"STAT nontrivial={s.routes}"
   IO.println s!"STAT routes={s.routes}"
   IO.println s!"STAT routes_monitored={s.monitored}"
-  IO.println s!"STAT overflow_range_skipped={s.wrapSkipped}"
+  IO.println s!"STAT fee_overflow_violations={s.wrapSkipped}"
   IO.println s!"STAT nopath={s.nopath}"
   IO.println s!"STAT insufficient_balance={s.insufficient}"
   IO.println s!"STAT other_errors={s.otherErr}"
@@ -370,5 +448,13 @@ def main : IO Unit := do
   IO.println s!"STAT cases_graph_db={s.dbCases}"
   IO.println s!"STAT cases_payment_session={s.sessCases}"
   IO.println s!"STAT direct_channel_completeness_checks={s.directComplete}"
+  IO.println s!"STAT routes_via_FindRoute={s.routeCases}"
+  IO.println s!"STAT routes_FindRoute_without_edge_replay={s.noEdges}"
+  IO.println s!"STAT routes_over_route_hints={s.hintRoutes}"
+  IO.println s!"STAT routes_with_large_metadata={s.metaCases}"
+  IO.println s!"STAT routes_payload_within_40_bytes_of_limit={s.payloadTight}"
+  IO.println s!"STAT routes_with_distinct_edge_probabilities={s.distinctProb}"
+  IO.println s!"STAT stored_entry_amount_checks={s.storedChecked}"
+  IO.println s!"STAT stored_entry_cltv_checks={s.storedCltvChecked}"
   IO.println s!"STAT mismatches={s.mismatches}"
   IO.println s!"STAT monitor_failures={s.monitorFails}"
